@@ -1,13 +1,13 @@
 SPECIFICATION Spec
 CONSTANTS
   Design = "grader_bookkeeping"
-  Kind = "busy"
+  Kind = "unwinder"
   MaxSteps = 2
   Inject = "base"
   Handback = "per_run"
   NextRun = "plain"
   ImportThread = "inline"
-  TimeoutPolicy = "timeout_wins"
+  TimeoutPolicy = "thread_exc_wins"
   defaultInitValue = defaultInitValue
 INVARIANT ExcIsTimeout
 INVARIANT ExcStable
@@ -15,4 +15,5 @@ INVARIANT OneRuntimeFb
 INVARIANT StacksEmpty
 INVARIANT NoCrash
 INVARIANT NextRunClean
+INVARIANT NextExcNone
 CHECK_DEADLOCK FALSE
